@@ -55,6 +55,35 @@ add("C06",
     "Trusted: cost values (decided by C01); inequalities asserted only where slice variances exceed 1e-8 x scale^2.",
     "DESIGN.md section 4, C06")
 
+add("C04",
+    "Hypothesis PBT: generated detectors x hyper-parameters x data against a validity predicate over the sparse output",
+    "All seven detectors with hyper-parameters generated over their documented domains (boundary values included), admissible "
+    "scorers and structured data (events at first/last admissible positions, spikes, adjacent events, constant data, n at the "
+    "minimum); predict's frame is checked against a predicate written from the property text (range index, int64 strictly "
+    "increasing changepoints with segment / bandwidth limits, sorted disjoint non-empty left-closed intervals, labels 1..K, "
+    "length limits, strict interior for circular binseg, valid distinct icolumns). Bounded exploration (n<=90, p<=4).",
+    "Trusted: the predicate in checks/common.py; negative tuned thresholds (rounding on constant data) are outside the domain "
+    "and counted; the documented not-PD error is accepted for multivariate Gaussian scorers.",
+    "DESIGN.md section 4, C04")
+add("C13",
+    "exhaustive enumeration of the integer box [-2,n+2]^k for 17 scorers + Hypothesis-generated malformed arrays; validity predicate and definitional values",
+    "Every integer tuple of the box (k=2,3,4; n 4..6, thorough up to 8; p 1..2) for 17 scorers is passed to evaluate: invalid "
+    "tuples must raise ValueError (not IndexError, not a value), valid ones must be accepted and equal the definitional value; "
+    "plus generated float/bool/wrong-width/0-row/3-D/list/row-vector arguments and mixed batches. The box facet is exhaustive.",
+    "Trusted: the validity predicate written from the property and the documented minimum sizes (1, 2, p+1); fixed "
+    "well-conditioned data per (n,p).",
+    "DESIGN.md section 4, C13")
+add("C14",
+    "finite configuration grid enumerated on a process pool (exhaustive in the thorough tier, seeded 1/12 sample in the quick tier) against an outcome model with a watchdog",
+    "137k-cell grid of boundary/interior hyper-parameter values x scorers x lengths around the documented minimum x p x six "
+    "data kinds x NaN for all seven detectors: valid cells must run fit/predict/transform within the watchdog and give "
+    "well-formed output (accepted alternatives: documented not-PD error, ValueError when the cost's minimum size exceeds the "
+    "requested length); too-short or NaN data and every invalid hyper-parameter class (constructor and set_params routes) "
+    "must raise ValueError.",
+    "Trusted: outcome model in checks/c14.py; regions the documentation leaves unspecified are not generated and are listed "
+    "in the evidence assumptions; watchdog 12 s per cell (typical cell 10 ms).",
+    "DESIGN.md section 4, C14")
+
 NOT_BUILT_REASON = "check not built yet in this round (designed in DESIGN.md section 4; no claim is made)"
 
 
